@@ -655,7 +655,7 @@ def main(out):
     ordered = _json.load(open(_os.path.join(_os.path.dirname(_os.path.abspath(__file__)), "skeleton_ordered.json")))
     assert set(ordered) == set(SKELETON), (sorted(set(ordered) ^ set(SKELETON)))
     for fn, toks in ordered.items():
-        prim = {t for t in toks if t not in ("if{", "}else{", "}", "for{", "loop{", "select{", "switch{", "case:", "default:", "defer{", "inline{", "return", "break", "continue")}
+        prim = {t for t in toks if t not in ("if{", "}else{", "}", "for{", "loop{", "select{", "switch{", "case:", "default:", "defer{", "inline{", "return", "break", "continue") and not t.startswith(("cond:", "loopcond:", "kill:", "set:", "copy:"))}
         assert prim == set(SKELETON[fn]), (fn, sorted(prim ^ set(SKELETON[fn])))
     L.append("/-- the same primitives in source order inside their control structure, as they stood when this skeleton was")
     L.append("written / last re-validated against the Go source. -/")
